@@ -19,7 +19,10 @@ RULE = ("random histories (<= 20 ops) of receive / all_waveforms / waveforms / i
         "noise class), DipoleAntenna (threshold trigger) and AntennaSystem (lead-in 0, 2.5 dt, 10 dt; halving or "
         "pass-through, pedestal-subtracting, echo, clipping or rectifying front end; optional system-level trigger; built from an instance or "
         "via class + setup_antenna; inner-antenna queries interleaved); is_hit_mc_truth; receive of two polarisation "
-        "components in one call; `times` arguments as float array / list / tuple / integer array; plus real-thermal-noise histories (seeded numpy RNG, "
+        "components in one call, of an all-empty reception (EmptySignal, [EmptySignal, EmptySignal]) and of "
+        "[EmptySignal, Signal]; threshold 0 (a noisy dipole triggers on noise); function-backed signals that are non-zero "
+        "outside their window (tone, tail, chirp) on a DipoleAntenna / system with the real response, compared between "
+        "twins with different query histories; `times` arguments as float array / list / tuple / integer array; plus real-thermal-noise histories (seeded numpy RNG, "
         "Antenna / DipoleAntenna / AntennaSystem, make_noise / full_waveform / receive / all_waveforms / clear on 2-4 "
         "windows lying up to 1000 window lengths apart and revisited, tolerance 1e-9); signal windows overlapping, disjoint (far "
         "away, exercising the skip test), nested, half-sample shifted and with different sample spacings; a "
@@ -43,6 +46,9 @@ LEVEL_NOTE = ("assumed: numpy.interp is piecewise-linear interpolation with left
               "mis-interpolated by numpy.interp - outside the property ('signal windows'). The exact run uses dyadic "
               "times/values; decimal-fraction grids (0.1, 1/3, 0.3, 0.7 ns, random float values) are decided by the "
               "tolerance search (1e-12) only. Histories are <= 20 operations in the run (unbounded in the theorems). "
+              "Received signals are values (sample lists) in the Lean model; that a query leaves function-backed stored "
+              "signals, the caller's objects and other antennas sharing an object untouched is decided by the twin oracle "
+              "of the search only. "
               "No _partial theorem; not proved: the system-side is_hit_mc_truth, LinearFE of the pedestal/echo front ends.")
 CHECKER_MODULES = ["PyrexVerif.Proofs.AntennaBook", "PyrexVerif.Proofs.AntennaInterp", "PyrexVerif.D.AntennaSM"]
 EXTRACTORS = []
@@ -182,6 +188,10 @@ def op_s(op):
     k = op[0]
     if k == "R":
         return "R %d" % len(op[1]) + "".join(" %s %s" % (frs(t), frs(v)) for t, v in zip(op[1], op[2]))
+    if k in ("RE", "RE2"):   # an all-empty reception (what the kernel sends for a cut ray): zeros on that grid
+        return "R %d" % len(op[1]) + "".join(" %s 0" % frs(t) for t in op[1])
+    if k == "RM":            # [EmptySignal, Signal]: the signal
+        return "R %d" % len(op[1]) + "".join(" %s %s" % (frs(t), frs(v)) for t, v in zip(op[1], op[2]))
     if k == "R2":      # two polarisation components received in one call: what is stored is their sum
         return "R %d" % len(op[1]) + "".join(" %s %s" % (frs(t), frs(a + b)) for t, a, b in zip(op[1], op[2], op[3]))
     if k in "FDN":
@@ -250,6 +260,18 @@ def apply_op(obj, op, is_sys):
         obj.receive([Signal(t, np.array(op[2], dtype=float), Signal.Type.voltage),
                      Signal(t, np.array(op[3], dtype=float), Signal.Type.voltage)],
                     polarization=[(0, 0, 1), (1, 0, 0)])
+        return "u"
+    if k in ("RE", "RE2", "RM"):
+        from pyrex.signals import EmptySignal
+        t = np.array(op[1], dtype=float)
+        if k == "RE":
+            obj.receive(EmptySignal(t, Signal.Type.voltage))
+        elif k == "RE2":
+            obj.receive([EmptySignal(t, Signal.Type.voltage), EmptySignal(t, Signal.Type.voltage)],
+                        polarization=[(0, 0, 1), (1, 0, 0)])
+        else:
+            obj.receive([EmptySignal(t, Signal.Type.voltage), Signal(t, np.array(op[2], dtype=float), Signal.Type.voltage)],
+                        polarization=[(0, 0, 1), (1, 0, 0)])
         return "u"
     if k == "M":
         return "f %d" % bool(obj.is_hit_mc_truth)
@@ -338,12 +360,27 @@ def gen_history(rng, cfg, nmax=20):
 
     def form():      # container / dtype form of a `times` argument
         return rng.choice(["arr", "arr", "list", "tuple", "int"])
+    level = max(cfg.get("thr") or 0, cfg.get("sthr") or 0)
+    if level > 0 and rng.random() < 0.3:
+        # constructive superposition: signals that each stay AT the threshold (no trigger alone) on one window;
+        # only their sum crosses it
+        ts = gen_grid(rng, dt, uniform=True)
+        for _ in range(rng.randint(2, 3)):
+            ops.append(("R", ts, [level * rng.choice([1, 1, -1]) if rng.random() < 0.8 else level / 2 for _ in ts]))
+            prev.append(ts)
+        ops.append(rng.choice([("H",), ("W",), ("M",), ("D", ts, "arr")]))
+        ops.append(("H",))
     for _ in range(n):
         r = rng.random()
         if r < 0.32:
             ts, vs = gen_signal(rng, dt, prev, uniform)
             prev.append(ts)
-            if rng.random() < 0.25:      # two polarisation components in one receive call
+            r2 = rng.random()
+            if r2 < 0.2:                 # an all-empty reception: a reception like any other
+                ops.append((rng.choice(["RE", "RE2"]), ts))
+            elif r2 < 0.28:
+                ops.append(("RM", ts, vs))
+            elif r2 < 0.45:              # two polarisation components in one receive call
                 ops.append(("R2", ts, vs, [rng.randint(-8, 8) / 4.0 for _ in ts]))
             else:
                 ops.append(("R", ts, vs))
@@ -383,11 +420,11 @@ def gen_cfg(rng):
     cfg = {"kind": kind, "noisy": int(rng.random() < 0.4), "dt": dt, "thr": None, "lead": 0.0, "fe": "I",
            "inner": "ant"}
     if kind == "dip":
-        cfg["thr"] = rng.choice([0.5, 1.0, 2.5, 3.0])
+        cfg["thr"] = rng.choice([0.0, 0.5, 1.0, 2.5, 3.0])      # 0: a noisy dipole triggers on noise alone
     if kind == "sys":
         cfg["inner"] = rng.choice(["ant", "dip"])
         if cfg["inner"] == "dip":
-            cfg["thr"] = rng.choice([0.5, 1.0, 2.5])
+            cfg["thr"] = rng.choice([0.0, 0.5, 1.0, 2.5])
         cfg["lead"] = dt * rng.choice([0, 2.5, 10])
         cfg["fe"] = rng.choice(["H", "H", "I", "B", "E", "C", "V"])
         cfg["sthr"] = rng.choice([None, None, 0.75, 1.5])        # system-level trigger overriding the antenna's
@@ -398,7 +435,7 @@ def gen_cfg(rng):
 def nontrivial(ops):
     seen_r = False
     for o in ops:
-        if o[0] in ("R", "R2"):
+        if o[0] in ("R", "R2", "RE", "RE2", "RM"):
             seen_r = True
         elif seen_r and o[0] in "AWHFDSIM":
             return True
@@ -795,6 +832,136 @@ def decimal_oracle(case):
 
 
 # --------------------------------------------------------------------------------------------
+# function-backed signals that are non-zero outside their window (continuous-wave tone, long tails) on a
+# frequency-dependent antenna / system with the REAL apply_response: queries must not change what is stored.
+# Twins with different query histories, the caller's own signal objects, one object received by two antennas.
+TDT = 1e-9
+
+
+def gen_twin_case(rng):
+    def sigspec():
+        form = rng.choice(["cw", "cw", "tail", "chirp"])
+        return {"form": form, "t0": rng.randint(-20, 40) * TDT, "n": rng.randint(24, 80),
+                "amp": rng.choice([0.5, 1.0, 3.0]), "f0": rng.choice([1.5e8, 2.2e8, 3.1e8]),
+                "ph": rng.uniform(0, 6.28), "tau": rng.choice([5e-9, 30e-9, 200e-9])}
+    sigs = [sigspec() for _ in range(rng.randint(1, 3))]
+    qs = []
+    for _ in range(rng.randint(2, 7)):
+        s0 = rng.choice(sigs)
+        kind = rng.choice(["inside", "coarse", "super", "far", "during", "all", "waves", "hit", "signals"])
+        if kind in ("inside", "during"):
+            a = rng.randint(0, s0["n"] // 3)
+            qs.append([kind, s0["t0"] + a * TDT, TDT, rng.randint(4, max(5, s0["n"] - a - 1))])
+        elif kind == "coarse":
+            qs.append([kind, s0["t0"] + rng.randint(0, 5) * TDT, rng.choice([2, 3, 0.5]) * TDT, rng.randint(4, 12)])
+        elif kind == "super":
+            qs.append([kind, s0["t0"] - rng.randint(3, 30) * TDT, TDT, s0["n"] + rng.randint(10, 60)])
+        elif kind == "far":
+            qs.append([kind, s0["t0"] + rng.choice([-1, 1]) * rng.randint(500, 5000) * TDT, TDT, rng.randint(8, 40)])
+        else:
+            qs.append([kind])
+    return {"kind": rng.choice(["dip", "sys", "sys"]), "lead": rng.choice([0.0, 5e-9, 12.5e-9]),
+            "fe": rng.choice(["I", "H"]), "sigs": sigs, "queries": qs, "thr": rng.choice([0.0, 0.2, 1.0])}
+
+
+def twin_oracle(case):
+    np, pyrex, Signal, FunctionSignal = _mods()
+    from pyrex.antenna import DipoleAntenna
+    from pyrex.detector import AntennaSystem
+
+    def make(sp):
+        t = sp["t0"] + TDT * np.arange(sp["n"])
+        amp, f0, ph, tau, tc = sp["amp"], sp["f0"], sp["ph"], sp["tau"], sp["t0"] + 0.3 * sp["n"] * TDT
+        if sp["form"] == "cw":
+            f = lambda x: amp * np.sin(2 * np.pi * f0 * np.asarray(x) + ph)
+        elif sp["form"] == "tail":
+            f = lambda x: amp * np.exp(-np.abs(np.asarray(x) - tc) / tau)
+        else:
+            f = lambda x: amp * np.sin(2 * np.pi * f0 * np.asarray(x) * (1 + 2e6 * np.asarray(x)) + ph)
+        return FunctionSignal(t, f, Signal.Type.voltage)
+
+    def build_obj():
+        d = DipoleAntenna("d", (0, 0, -100), 250e6, 100e6, 300, 50, trigger_threshold=case["thr"], noisy=False)
+        if case["kind"] == "dip":
+            return d
+        fe = case["fe"]
+
+        class Sys(AntennaSystem):
+            lead_in_time = case["lead"]
+
+            def front_end(self, signal):
+                return signal * 0.5 if fe == "H" else signal
+        return Sys(d)
+
+    def stored(o):
+        inner = o.antenna if case["kind"] == "sys" else o
+        out = [np.array(x.values) for x in inner.signals]
+        if case["kind"] == "sys":
+            out += [np.array(x.values) for x in o.signals]
+        return out
+
+    def run_queries(o):
+        for q in case["queries"]:
+            if q[0] in ("inside", "coarse", "super", "far"):
+                o.full_waveform(q[1] + q[2] * np.arange(q[3])).values
+            elif q[0] == "during":
+                o.is_hit_during(q[1] + q[2] * np.arange(q[3]))
+            elif q[0] == "all":
+                [w.values for w in o.all_waveforms]
+            elif q[0] == "waves":
+                [w.values for w in o.waveforms]
+            elif q[0] == "hit":
+                o.is_hit
+            elif q[0] == "signals" and case["kind"] == "sys":
+                [x.values for x in o.signals]
+
+    def same(a, b):
+        return len(a) == len(b) and all(np.array_equal(x, y) for x, y in zip(a, b))
+    import logging
+    lg = logging.getLogger("pyrex")
+    level = lg.level
+    lg.setLevel(logging.CRITICAL)      # the dipole response without force_real logs an amplitude-loss warning
+    try:
+        s0 = case["sigs"][0]
+        wfix = s0["t0"] + 2 * TDT + TDT * np.arange(max(4, s0["n"] - 6))
+        # (1) twins with different query histories
+        a_obj, b_obj = build_obj(), build_obj()
+        mine = [make(sp) for sp in case["sigs"]]              # the caller's objects, handed to B
+        for sp in case["sigs"]:
+            a_obj.receive(make(sp))
+        for sg in mine:
+            b_obj.receive(sg)
+        v0 = stored(a_obj)                                   # read BEFORE any query
+        w0 = np.array(a_obj.full_waveform(wfix).values)
+        run_queries(b_obj)
+        if not same(stored(b_obj), v0):
+            return "what is stored in `signals` depends on the waveform / trigger queries made before it is read"
+        if not np.array_equal(np.array(b_obj.full_waveform(wfix).values), w0):
+            return "full_waveform over a fixed window depends on earlier queries over other windows"
+        # (2) the caller's own signal objects are unchanged by any query
+        for sg, sp in zip(mine, case["sigs"]):
+            ref = make(sp)
+            if sg._buffers != ref._buffers or not np.array_equal(sg.times, ref.times) \
+                    or not np.array_equal(np.array(sg.values), np.array(ref.values)):
+                return "a query changed the caller's original signal object (buffers / times / values)"
+        # (3) one signal object received by two antennas: querying one must not change the other
+        shared = make(s0)
+        c1, c2, ctrl = build_obj(), build_obj(), build_obj()
+        c1.receive(shared)
+        c2.receive(shared)
+        ctrl.receive(make(s0))
+        run_queries(c1)
+        if not same(stored(c2), stored(ctrl)) or not np.array_equal(np.array(c2.full_waveform(wfix).values),
+                                                                     np.array(ctrl.full_waveform(wfix).values)):
+            return "querying one antenna changed what another antenna that received the same signal object reports"
+    except Exception as e:
+        return "exception %s: %s" % (type(e).__name__, str(e)[:120])
+    finally:
+        lg.setLevel(level)
+    return None
+
+
+# --------------------------------------------------------------------------------------------
 # search: property-level oracles on the implementation alone
 def _interp0(np, ts, vs, x):
     return np.interp(x, ts, vs, left=0, right=0)
@@ -818,8 +985,9 @@ def oracle(cfg, ops):
         for i, op in enumerate(ops):
             k = op[0]
             try:
-                if k in ("R", "R2"):
-                    sigs.append((list(op[1]), list(op[2]) if k == "R" else [a + b for a, b in zip(op[2], op[3])]))
+                if k in ("R", "R2", "RE", "RE2", "RM"):
+                    sigs.append((list(op[1]), [0.0] * len(op[1]) if k in ("RE", "RE2") else
+                                 list(op[2]) if k in ("R", "RM") else [a + b for a, b in zip(op[2], op[3])]))
                     apply_op(obj, op, is_sys)
                     continue
                 if k == "C":
@@ -954,6 +1122,14 @@ def search(run, deep):
         if why:
             run.fail_input("leadin", {"dt": dt, "lead": lead, "grid": g}, observed=why, what=why)
             break
+    for _ in range(run.scale(60, 600)):
+        case = gen_twin_case(run.rng)
+        run.case(("twin", str(case)))
+        why = twin_oracle(case)
+        if why:
+            run.fail_input("twin", case, observed=why, what=why[:200])
+            if len(run.violations) >= 3:
+                return
     for _ in range(run.scale(120, 1500)):
         case = gen_decimal_case(run.rng)
         run.case(("decimal-grid", str(case)))
@@ -972,7 +1148,7 @@ def search(run, deep):
                            expected="the same noise value at the same absolute time until clear(reset_noise=True)")
             if len(run.violations) >= 3:
                 return
-    n = 3000 if deep else run.scale(400, 3000)
+    n = 4000 if deep else run.scale(900, 4000)
     for _ in range(n):
         cfg = gen_cfg(run.rng)
         ops = gen_history(run.rng, cfg)
@@ -1019,6 +1195,11 @@ def shrink(cfg, ops):
 
 def replay(run, data):
     inp = data["input"]
+    if data["kind"] == "twin":
+        why = twin_oracle(inp)
+        if why:
+            run.fail_input("twin", inp, observed=why, what=why[:200])
+        return
     if data["kind"] == "decimal-grid":
         why = decimal_oracle(inp)
         if why:
